@@ -378,7 +378,7 @@ Fixpoint first_nonzero (l : list N) : N :=
 
 Inductive case :=
 | KTrace (keys : list kcase)                       (* C14: one lock instance, its keys *)
-| KResidue (nkeys : nat) (locked_now : nat) (queue_count : nat)
+| KResidue (nkeys : nat) (locked_now : nat) (queue_count : nat) (entries : nat)
                                                    (* C28: after a history over nkeys distinct keys of
                                                       which locked_now are still held or waited on *)
 | KTtl (asked : Z) (released_before_floor : bool) (released_later : bool).
@@ -389,7 +389,11 @@ Inductive case :=
 Definition check_case (k : case) : N :=
   match k with
   | KTrace keys => first_nonzero (map (check_key true) keys)
-  | KResidue nkeys locked_now qc => if Nat.leb qc locked_now then 0%N else 6%N
+  | KResidue nkeys locked_now qc entries =>
+      (* entries: everything the lock object keeps in any container (found by reflection): per key in
+         use at most the map entry, the holder and - in these histories - one waiter *)
+      if negb (Nat.leb qc locked_now) then 6%N
+      else if Nat.leb entries (3 * locked_now) then 0%N else 10%N
   | KTtl asked early later => if early then 7%N else if later then 0%N else 8%N
   end.
 
